@@ -142,3 +142,55 @@ Definition tr_WriteInt64 (data : Z) (tag : Z) (out : list N) : ctl (list N) (lis
         Next (out, err)))))
     (fun st : (list N) * bool => let '(out, err) := st in 
     Return (out, false)).
+
+(* struct tars/util/endpoint.Endpoint *)
+Record go_endpoint_Endpoint := { go_endpoint_Endpoint_Host : (list N);
+  go_endpoint_Endpoint_Port : Z;
+  go_endpoint_Endpoint_Timeout : Z;
+  go_endpoint_Endpoint_Istcp : Z;
+  go_endpoint_Endpoint_Grid : Z;
+  go_endpoint_Endpoint_Qos : Z;
+  go_endpoint_Endpoint_Weight : Z;
+  go_endpoint_Endpoint_WeightType : Z;
+  go_endpoint_Endpoint_AuthType : Z;
+  go_endpoint_Endpoint_Proto : (list N);
+  go_endpoint_Endpoint_Bind : (list N);
+  go_endpoint_Endpoint_Container : (list N);
+  go_endpoint_Endpoint_SetId : (list N);
+  go_endpoint_Endpoint_Key : (list N) }.
+
+(* tars/util/endpoint/parse.go: func Parse, statements "isTcp := int32(0)" .. "e := Endpoint{" *)
+Definition tr_Parse_build (proto : (list N)) (host : (list N)) (bind : (list N)) (port : Z) (timeout : Z) (grid : Z) (qos : Z) (weight : Z) (weightType : Z) (authType : Z) : ctl go_endpoint_Endpoint go_endpoint_Endpoint :=
+  let isTcp := 0 in
+    bindc (if (go_bytes_eqb proto (116%N :: (99%N :: (112%N :: (@nil N)))))
+      then let isTcp := 1 in
+        Next (proto, isTcp)
+      else bindc (if (go_bytes_eqb proto (115%N :: (115%N :: (108%N :: (@nil N)))))
+          then let proto := (116%N :: (99%N :: (112%N :: (@nil N)))) in
+            let isTcp := 2 in
+            Next (proto, isTcp)
+          else Next (proto, isTcp))
+        (fun st : (list N) * Z => let '(proto, isTcp) := st in 
+        Next (proto, isTcp)))
+    (fun st : (list N) * Z => let '(proto, isTcp) := st in 
+    bindc (if (andb (negb (weightType =? 0)) (orb (weight =? (-1)) (100 <? weight)))
+      then let weight := 100 in
+        Next weight
+      else Next weight)
+    (fun weight : Z => 
+    let e := {|
+      go_endpoint_Endpoint_Host := host;
+      go_endpoint_Endpoint_Port := (wrapS 32 port);
+      go_endpoint_Endpoint_Timeout := (wrapS 32 timeout);
+      go_endpoint_Endpoint_Istcp := isTcp;
+      go_endpoint_Endpoint_Grid := (wrapS 32 grid);
+      go_endpoint_Endpoint_Qos := (wrapS 32 qos);
+      go_endpoint_Endpoint_Weight := (wrapS 32 weight);
+      go_endpoint_Endpoint_WeightType := (wrapS 32 weightType);
+      go_endpoint_Endpoint_AuthType := (wrapS 32 authType);
+      go_endpoint_Endpoint_Proto := proto;
+      go_endpoint_Endpoint_Bind := bind;
+      go_endpoint_Endpoint_Container := (@nil N);
+      go_endpoint_Endpoint_SetId := (@nil N);
+      go_endpoint_Endpoint_Key := (@nil N) |} in
+    Next e)).
